@@ -119,7 +119,7 @@ func (p c02) Run(w *mon.Worker, idx int) mon.Result {
 		}
 	}
 	evalDoc := func(expr string, d *ref.V) (*ref.V, []*ref.V, error) { return evalDocFmt(expr, d, inFmt) }
-	law := []string{"put", "put", "getput", "putput", "update", "compound", "put", "sharing", "overwrite", "rhsread", "update", "rhsmerge", "eaunion"}[idx%13]
+	law := []string{"put", "put", "getput", "putput", "update", "compound", "put", "sharing", "overwrite", "rhsread", "update", "rhsmerge", "eaunion", "ctxassign"}[idx%14]
 	opts := gen.PathOpts{AllowCreate: law == "put" || law == "putput" || law == "eaunion", AllowMulti: true, NoRoot: true}
 	opts.MultiIdx = (law == "update" || law == "put") && r.IntN(6) == 0
 	path := gen.RandomPath(r, doc, opts)
@@ -265,6 +265,76 @@ func (p c02) Run(w *mon.Worker, idx int) mon.Result {
 			return fail("`%s`\n expected %s\n observed %s", expr, want, got)
 		}
 		return hold("intermediate overwritten with the string")
+
+	case "ctxassign":
+		// `=` evaluated for several context nodes at once: each node gets the value its OWN right-hand side yields
+		n := 2 + r.IntN(3)
+		items := &ref.V{K: ref.Seq, A: []*ref.V{}}
+		for i := 0; i < n; i++ {
+			it := ref.MapV(ref.KV{K: "a", V: ref.IntV(int64(r.IntN(50)))}, ref.KV{K: "b", V: ref.IntV(int64(100 + 7*i + r.IntN(5)))})
+			if r.IntN(3) == 0 {
+				it.M = append(it.M, ref.KV{K: "c", V: ref.StrV(fmt.Sprintf("s%d", i))})
+			}
+			items.A = append(items.A, it)
+		}
+		d2 := ref.MapV(ref.KV{K: "items", V: items}, ref.KV{K: "keep", V: doc})
+		tgt := []string{".a", ".zz", ".a", ".n.m"}[r.IntN(4)]
+		rhs := []string{".b", ".b + 1", "(.b | . * 2)", ".b // 0"}[r.IntN(4)]
+		form := r.IntN(4)
+		var expr string
+		switch form {
+		case 0:
+			expr = fmt.Sprintf(".items[] | %s = %s", tgt, rhs)
+		case 1:
+			expr = fmt.Sprintf(".items | map(%s = %s) | .[]", tgt, rhs)
+		case 2:
+			expr = fmt.Sprintf("[.items[] | %s = %s] | .[]", tgt, rhs)
+		default:
+			expr = fmt.Sprintf("(.items[0], .items[%d]) | %s = %s", n-1, tgt, rhs)
+		}
+		cs["expr"], cs["doc"] = expr, d2.JSON()
+		res.Sig = fmt.Sprintf("ctxassign|%d|%s|%s|%d", form, tgt, rhs, n)
+		_, gs, yerr := evalDoc(expr, d2)
+		res.Evals++
+		if yerr != nil {
+			return fail("`%s` failed: %v", expr, yerr)
+		}
+		idxs := make([]int, 0, n)
+		if form == 3 {
+			idxs = append(idxs, 0, n-1)
+		} else {
+			for i := 0; i < n; i++ {
+				idxs = append(idxs, i)
+			}
+		}
+		if len(gs) != len(idxs) {
+			return fail("`%s`: %d results for %d context nodes: %v", expr, len(gs), len(idxs), gs)
+		}
+		for k, i := range idxs {
+			it := items.A[i]
+			bv, _ := it.Get("b")
+			val := bv.I.Int64()
+			switch rhs {
+			case ".b + 1":
+				val++
+			case "(.b | . * 2)":
+				val *= 2
+			}
+			want := it.Copy()
+			switch tgt {
+			case ".a":
+				_ = ref.SetPath(want, []any{"a"}, ref.IntV(val))
+			case ".zz":
+				_ = ref.SetPath(want, []any{"zz"}, ref.IntV(val))
+			default:
+				_ = ref.SetPath(want, []any{"n", "m"}, ref.IntV(val))
+			}
+			if !ref.EqualNum(gs[k], want) {
+				return fail("`%s`: context node %d\n expected %s\n observed %s\n input %s", expr, i, want, gs[k], items)
+			}
+		}
+		res.Nontrivial = true
+		return hold("every context node got its own value")
 
 	case "eaunion":
 		// eval-all over two documents: a left-hand side that is the union of the same path in each document
@@ -436,6 +506,12 @@ func (p c02) Run(w *mon.Worker, idx int) mon.Result {
 				return hold("read location overlaps the written one")
 			}
 		}
+		for _, ns := range nullSplats { // a null the left-hand side turns into [] on its way
+			if ref.IsPrefix(ns, ets[0].Path) || ref.IsPrefix(ets[0].Path, ns) {
+				res.Nontrivial = false
+				return hold("read location overlaps the spine of the written path")
+			}
+		}
 		at, _ := doc.GetPath(ets[0].Path)
 		estr := ep.String()
 		kind := "null"
@@ -487,6 +563,13 @@ func (p c02) Run(w *mon.Worker, idx int) mon.Result {
 			return fail("`%s` fails (%v) although the right-hand side only reads and `%s` works", exprs[0], err1, exprs[1])
 		}
 		created := doc.Copy() // following p creates the missing locations (as null) even when nothing is assigned then
+		for _, ns := range nullSplats {
+			if x, ok := created.GetPath(ns); ok && x.K == ref.Null {
+				*x = ref.V{K: ref.Seq, A: []*ref.V{}}
+			} else if !ok {
+				_ = ref.SetPath(created, ns, &ref.V{K: ref.Seq, A: []*ref.V{}})
+			}
+		}
 		for _, t := range targets {
 			if t.Creates {
 				_ = ref.SetPath(created, t.Path, ref.NullV())
